@@ -140,7 +140,7 @@ def main():
                       'handshake, timeouts and transport I/O errors are exercised by the harness only',
                       'RC-S380 response frames are not validated by the code (no checksum check); only the '
                       'command frame construction is in the model, as the property states']
-    ck.coq(gen=['Crc', 'FramesK'], targets=['Proofs/CrcCheck.vo', 'Proofs/Frames2.vo', 'Bridge/Crc.vo', 'Bridge/FramesK.vo', 'Bridge/FramesP.vo'], props='C14')
+    ck.coq(gen=['Crc', 'FramesK'], targets=['Proofs/CrcCheck.vo', 'Proofs/Frames2.vo', 'Bridge/Crc.vo', 'Bridge/FramesK.vo', 'Bridge/FramesP.vo', 'Bridge/FramesA.vo'], props='C14')
     mr = ck.model()
     rng = ck.rng
     quick = ck.tier == 'quick'
